@@ -5,7 +5,7 @@
    (kinds c04-overlap / c04-out-of-bounds); its proof over M2 needs the global invariant and is not done yet (DESIGN §10). *)
 From stdpp Require Import gmap.
 From Coq Require Import NArith.
-From BV Require Import Base Heap HeapLaws HeapWF HeapWFOps HeapWFMain.
+From BV Require Import Base Heap HeapLaws HeapWF HeapWFOps HeapWFMain SizeInv Spec RefineM1 RefineCor.
 Local Open Scope N_scope.
 
 Theorem C04_reserve_post : forall orc n x s e x' s' e', m_reserve orc n x s e = OK x' s' e' -> h_len x <= h_cap x ->
@@ -43,6 +43,13 @@ Proof.
   apply (refs_one_other (hs s) h (HM k o l c (MVec ocr)) k h' y); try done. by eapply (HeapWFPrim.st_ok_sole_n _ _ h _ k st L Hx).
 Qed.
 
+(* "contents and length are unchanged" - of EVERY handle, the one reserve is called on included (refinement M2 refines M1, RefineM1.v) *)
+Theorem C04_reserve_changes_nothing_observable : forall orcs n s h a r s' e', (forall i, oracle_sane (orcs i)) -> reach orcs n s -> op_ok s (OMReserve h a) ->
+  run_op (orcs n) (OMReserve h a) s = OK r s' e' -> abs s' = abs s /\ r = RUnit.
+Proof. exact reserve_keeps_observables. Qed.
+Theorem C04_try_reclaim_changes_nothing_observable : forall orcs n s h a r s' e', (forall i, oracle_sane (orcs i)) -> reach orcs n s -> op_ok s (OMTryReclaim h a) ->
+  run_op (orcs n) (OMTryReclaim h a) s = OK r s' e' -> abs s' = abs s.
+Proof. exact try_reclaim_keeps_observables. Qed.
 Print Assumptions C04_reserve_post.
 Print Assumptions C04_try_reclaim.
 Print Assumptions C04_try_reclaim_never_allocates.
@@ -51,3 +58,5 @@ Print Assumptions C04_unrepresentable_request_panics.
 Print Assumptions C04_windows_disjoint.
 Print Assumptions C04_window_inside_live_allocation.
 Print Assumptions C04_inline_vec_is_sole_holder.
+Print Assumptions C04_reserve_changes_nothing_observable.
+Print Assumptions C04_try_reclaim_changes_nothing_observable.
